@@ -173,6 +173,11 @@ def build_scenarios(tier, rng):
             if rng.random() < 0.4:
                 steps += [up(k, rel_content(c, rng.choice(["same", "diff", "longer"]), 30 + j), imm), fe(k)]
         out.append(scenario("keys/%d" % i, steps, fresh=rng.choice([0, 0, 1, 2])))
+    # the key "." names the configured directory itself (finding F-4, fixed): nothing may be created beside,
+    # in place of, or removed at the configured directory
+    out.append(scenario("dot/0", [up(".", C(5, 5), False), fe("."), di("."), up("x", C(6, 5), False), fe("x")], fresh=0, pre=()))
+    out.append(scenario("dot/1", [up(".", C(5, 5), False), up("x", C(6, 5), False), fe("x")], fresh=1))
+    out.append(scenario("dot/2", [up(".", C(5, 16385), True), di("."), up("d1/x", C(6, 5), True), fe("d1/x")], fresh=1))
     # discard and re-create
     for i in range(2 if quick else 20):
         k = rng.choice(VALID_KEYS)
@@ -542,8 +547,9 @@ def run(prop, tier):
                                     for s in sc["steps"] if s["op"] != "observe"],
                             "syscalls": ["%s %s" % (e["name"], "/".join(e["path"]) or e["fd"]) for e in tr if e.get("ev") == "sys"][:40]})
         nlines = sum(len(tr) for _, tr in byname.values())
-        cov = {"states": states + sum(r["states"] for r in design),
-               "transitions": trans + sum(r["transitions"] for r in design),
+        # counts of this run only: design configurations answered from the model cache are not added
+        cov = {"states": states + sum(r["states"] for r in design if not r.get("cached")),
+               "transitions": trans + sum(r["transitions"] for r in design if not r.get("cached")),
                "traces_validated_against_impl": len(byname),
                "samples": samples,
                "trace_validation": {"scenarios": len(byname), "compositions": ncomp, "trace_lines": nlines,
